@@ -155,6 +155,12 @@ func (p c07) RunBatch(c *fw.Ctx) {
 			table = append(table, "m = {1: 1, 2: "+a+"}; del(m[2]); "+use, "m = {"+a+": 1, 1: 2}; del(m["+a+"]); "+use)
 		}
 	}
+	// a variable deleted by another call frame while this one holds a reference to it
+	for _, a := range V {
+		for _, use := range []string{"x", "x + 1", "x = 2", "x++", "println(x)", "x[0]", "x[1] = 3", "len(x)", "for v = x {}", "[x]", "{1: x}", "x == x", "del(x)", "x.k", "-x", "f2 = () => x; f2()"} {
+			table = append(table, "x = "+a+"; func g() {del(x)}; func f() {x; g(); "+use+"}; f()")
+		}
+	}
 	for i, src := range table {
 		if i%c.NBatches == c.Batch {
 			p.run(c, src)
@@ -217,7 +223,8 @@ func (p c07) RunBatch(c *fw.Ctx) {
 	// macros with non-template bodies
 	for _, src := range []string{"m = macro(x) {x}; m(1)", "m = macro(x) {1}; m(2)", "m = macro() {}; m()", "m = macro(x) {quote(unquote(y))}; m(1)", "m = macro(x) {unquote(x)}; m(1)",
 		"m = macro(x) {quote(unquote(x)(unquote(x)))}; m(m)", "m = macro(x, y) {quote(unquote(x))}; m(1)", "m = macro(x) {quote(m(unquote(x)))}; m(1)", "quote()", "unquote(1)", "quote(unquote())",
-		"m = macro(x) {error(\"e\")}; m(1)", "m = macro(x) {quote(unquote(1/0))}; m(1)", "m = macro(x) {for true {}}; m(1)"} {
+		"m = macro(x) {error(\"e\")}; m(1)", "m = macro(x) {quote(unquote(1/0))}; m(1)", "m = macro(x) {for true {}}; m(1)",
+		"M = macro(x) {quote(unquote(x) + 1)}; M = macro(x) {quote(unquote(x) + 2)}; M(1)", "M = macro(x) {quote(unquote(x))}; M = macro(x) {quote(unquote(x))}", "M = macro() {quote(1)}; M == M; {M: 1}; M < M"} {
 		if c.Batch == 0 {
 			p.run(c, src)
 		}
